@@ -35,7 +35,8 @@ def gates(c, tier):
     if c.get("distinct-interleaving-signatures", 0) < (1000 if tier == "quick" else 10000):
         out.append(f"only {c.get('distinct-interleaving-signatures', 0)} distinct interleaving signatures")
     for k in ("delivery-ends-mid-header", "delivery-ends-mid-body", "pipelining-depth>=5", "termination:unbind", "termination:notice",
-              "quiescent-with-ops-in-progress", "quiescent-points", "probe-agreements", "noise-call-refused", "sasl-in-progress-round", "bind-failure"):
+              "quiescent-with-ops-in-progress", "quiescent-points", "probe-agreements", "noise-call-refused", "sasl-in-progress-round", "bind-failure",
+              "final-bind-response-with-sasl-creds"):
         if c.get(k, 0) == 0:
             out.append(f"never observed {k}")
     return out
@@ -110,7 +111,10 @@ class Sim:
                 self.o("sasl-in-progress-round")
             if code == 49:
                 self.o("bind-failure")
-            a = ("bind_response", mid, mk.encode() if code == 14 else None, code, None, mk, None)
+            creds = mk.encode() if (code == 14 or r.random() < 0.4) else r.choice([None, b""])
+            if code != 14 and creds:
+                self.o("final-bind-response-with-sasl-creds")
+            a = ("bind_response", mid, creds, code, None, mk, None)
         elif kind == "search":
             x = r.random()
             if x < 0.5:
